@@ -201,6 +201,9 @@ def run(ctx) -> None:
     ctx.rule("R09.7", "no other writer of buffers / shared list")
     from . import c01
     from .common import Relabel
+    ctx.rule("R09.14", "children that are done really leave: after every sequence of next / close operations that leaves every child "
+                       "done, the last one found the shared list empty and closed the source (a child whose buffer stays registered "
+                       "keeps being served and is never the last; R04.9's tee histories, shared)")
     ctx.rule("R09.13", "an item is retained only while a live child still has to yield it: the tee object refers to its children's "
                        "buffers only through the list a finished child removes its buffer from (R20.8, shared)")
     ctx.rule("R09.11", "every item of the source reaches every child: no value an item could have (None, a constant) is read as "
@@ -369,10 +372,14 @@ def _broadcast_loops(cfg, main, P, item_names) -> List[Node]:
     return out
 
 
+from .common import Relabel as Relabel9  # noqa: E402
+
+
 def r09_5(ctx, P) -> None:
     # decided on the evaluated construction (object model) whatever statements build it; the statement-shape
     # rule below is the fallback when the construction cannot be evaluated
     from . import objmodel
+    objmodel.release_histories(Relabel9(ctx, "R09.14"), "R09.14", only=("tee",))
     if objmodel.tee_construction(ctx, "R09.13", P, retention=True) is None:
         ctx.note("R09.13: the construction of tee is not evaluable over the object model (R20.2 decides what the children retain)")
     if objmodel.tee_construction(ctx, "R09.5", P) is not None:
